@@ -126,6 +126,11 @@ def generate(tier):
         if mode == "parallel" and tier == "quick" and not norm:
             continue
         cases.append({"routine": "response_coefficients", "net": "yield", "n1": 1.0, "n2": 1.0, "pars": list(pars), "normalized": norm, "start": "default", "mode": mode})
+    # a reversible step at equilibrium (zero flux) and away from it, unscaled
+    for routine, (k1, k2), (x, y) in it.product(("variable_elasticities", "parameter_elasticities", "mc.variable_elasticities"), ((2.0, 4.0), (1.0, 1.0), (0.5, 2.0)),
+                                                ((1.0, 0.5), (2.0, 1.0), (1.0, 1.0), (4.0, 1.0), (0.5, 2.0))):
+        cases.append({"routine": routine, "net": "reversible", "pars": [k1, k2], "state": [x, y], "normalized": False,
+                      **({"mode": "parallel"} if routine.startswith("mc.") else {})})
     # a closed pair: the steady state depends on the start values in force (the model's own or the supplied ones)
     for pars, norm, start, mode in it.product(rc_pars, (True, False), ("default", "supplied"), ("sequential", "parallel")):
         if mode == "parallel" and tier == "quick" and not norm:
@@ -235,12 +240,57 @@ def snapshot(m):
             {k: (float(v.initial_value) if isinstance(v.initial_value, (int, float)) else repr(v.initial_value.args)) for k, v in m.get_raw_variables().items()})
 
 
+def rev_rate(x, y, k1, k2):
+    return k1 * x - k2 * y
+
+
+def check_reversible(case):
+    """A reversible step at and away from equilibrium: at equilibrium its flux is exactly zero, the unscaled
+    elasticities are still the finite partial derivatives k1 and -k2."""
+    from mxlpy import Model, mc, mca
+
+    k1, k2 = case["pars"]
+    x, y = case["state"]
+    m = Model()
+    m.add_variables({"x": 1.0, "y": 1.0}).add_parameters({"k1": k1, "k2": k2, "c": 1.0})
+    m.add_reaction("v0", cin, args=["c"], stoichiometry={"x": 1})
+    m.add_reaction("viso", rev_rate, args=["x", "y", "k1", "k2"], stoichiometry={"x": -1, "y": 1})
+    before = snapshot(m)
+    txt = f"{case}"
+    st = {"x": x, "y": y}
+    try:
+        if case["routine"] == "variable_elasticities":
+            got = mca.variable_elasticities(m, variables=st, normalized=False)
+            exp = {("viso", "x"): k1, ("viso", "y"): -k2, ("v0", "x"): 0.0, ("v0", "y"): 0.0}
+        elif case["routine"] == "mc.variable_elasticities":
+            import pandas as pd
+
+            got_all = mc.variable_elasticities(m, mc_to_scan=pd.DataFrame({"c": [1.0, 2.0]}), variables=st, normalized=False, max_workers=1)
+            got = got_all.loc[1]
+            exp = {("viso", "x"): k1, ("viso", "y"): -k2, ("v0", "x"): 0.0, ("v0", "y"): 0.0}
+        else:
+            got = mca.parameter_elasticities(m, to_scan=["k1", "k2", "c"], variables=st, normalized=False)
+            exp = {("viso", "k1"): x, ("viso", "k2"): -y, ("viso", "c"): 0.0, ("v0", "c"): 1.0, ("v0", "k1"): 0.0, ("v0", "k2"): 0.0}
+    except Exception as exc:  # noqa: BLE001
+        return outcome(False, "raised", symptom=f"raised:{type(exc).__name__}", detail=f"{type(exc).__name__}: {exc} | {txt}")
+    for (r, col), e in exp.items():
+        g = float(got.loc[r, col])
+        if not _close(g, e, 1e-6):
+            return outcome(False, "wrong-elasticity", symptom="wrong-unscaled-elasticity:zero-flux" if abs(k1 * x - k2 * y) < 1e-12 else "wrong-unscaled-elasticity",
+                           detail=f"d{r}/d{col} = {g} expected {e} (net flux of viso at this state: {k1 * x - k2 * y}) | {txt}")
+    if snapshot(m) != before:
+        return outcome(False, "model-changed", symptom="model-changed:reversible", detail=txt)
+    return outcome(True, "equal-and-untouched")
+
+
 def check(case):
     import warnings
 
     from mxlpy import mca
 
     warnings.simplefilter("ignore")
+    if case.get("net") == "reversible":
+        return check_reversible(case)
     if case["routine"].startswith("mc."):
         return check_mc(case)
     m = build(case["net"], case["n1"], case["n2"], case["pars"], ia=bool(case.get("ia")))
